@@ -150,6 +150,10 @@ Client == \/ IsA("obs.adjust") /\ TPost(Msg("adjust", Ev.n, 0, "", 0))
              /\ IF Ev.d = 1 THEN /\ mon.ans # <<>> /\ Head(mon.ans) = Ev.v /\ mon' = [mon EXCEPT !.ans = Tail(@)]
                                   /\ UNCHANGED <<cfg, f, fmq, fsq, act, jb, now>>
                              ELSE UNCHANGED vars
+          \* call_job: an answer can only come from the worker that completed this job; no answer = the job (with its port) was dropped
+          \/ /\ IsA("obs.call_ret") /\ Adv /\ KeepPre /\ E0 /\ UNCHANGED vars
+             /\ Ev.id \in JobIds /\ jb[Ev.id].sub
+             /\ IF Ev.d = 1 THEN jb[Ev.id].h = 1 /\ Ev.v = Ev.id ELSE jb[Ev.id].h = 0
           \/ /\ IsA("obs.reply") /\ Adv /\ KeepPre /\ E0 /\ UNCHANGED vars
              /\ Ev.id \in JobIds /\ jb[Ev.id].port
              /\ IF Ev.res = "accepted" THEN jb[Ev.id].acc ELSE IF Ev.res = "returned" THEN jb[Ev.id].ret ELSE ~Replied(jb[Ev.id])
